@@ -996,6 +996,55 @@ pub fn classify(payload: Box<dyn std::any::Any + Send>) -> Pk {
     }
 }
 
+/// Apply a request (read-only operation) on any handle; panics propagate.
+pub fn request_raw(db: &Db, op: &Op) -> Out {
+    let cx = db.cx_arc();
+    let t = cx.tabs();
+    match op {
+        Op::Q(n) => Out::Val(call_node(db, *n)),
+        Op::Q2(n, s) => {
+            let mut be = SB { db, in_query: false };
+            Out::Val(be.call2(*n, *s))
+        }
+        Op::Q0 => {
+            let mut be = SB { db, in_query: false };
+            Out::Val(be.call0())
+        }
+        Op::Acc(n) => {
+            let code = t.nodes[*n as usize];
+            let vals: Vec<u8> = match t.kinds[*n as usize] {
+                Kind::Ev => ev::accumulated::<Acc>(db, code).into_iter().map(|a| a.0).collect(),
+                Kind::NoEq => ev_noeq::accumulated::<Acc>(db, code).into_iter().map(|a| a.0).collect(),
+                Kind::Lru => ev_lru::accumulated::<Acc>(db, code).into_iter().map(|a| a.0).collect(),
+                Kind::Ev0 => ev0::accumulated::<Acc>(db).into_iter().map(|a| a.0).collect(),
+                Kind::Fx => fx::accumulated::<Acc>(db, code).into_iter().map(|a| a.0).collect(),
+                Kind::Fxj => fxj::accumulated::<Acc>(db, code).into_iter().map(|a| a.0).collect(),
+                Kind::Fb => fb::accumulated::<Acc>(db, code).into_iter().map(|a| a.0).collect(),
+                Kind::Mk => mk::accumulated::<Acc>(db, code).into_iter().map(|a| a.0).collect(),
+            };
+            Out::Vals(vals)
+        }
+        Op::QFld(n, i, w) => {
+            let mut be = SB { db, in_query: false };
+            Out::Val(be.fld(*n, *i, *w))
+        }
+        Op::QOnTs(n, i, w) => {
+            let mut be = SB { db, in_query: false };
+            Out::Val(be.on_ts(*n, *i, *w))
+        }
+        Op::QInt(ty, d) => Out::Val(intern(db, *ty, *d, false).0),
+        _ => panic!("QL: not a request: {op:?}"),
+    }
+}
+
+/// Apply a request, catching panics at the operation boundary.
+pub fn request(db: &Db, op: &Op) -> Out {
+    match std::panic::catch_unwind(std::panic::AssertUnwindSafe(|| request_raw(db, op))) {
+        Ok(o) => o,
+        Err(p) => Out::Panic(classify(p)),
+    }
+}
+
 pub struct Sess {
     pub db: Db,
     pub prog: Arc<Program>,
@@ -1064,39 +1113,9 @@ impl Sess {
                 self.db.synthetic_write(sdur(*d));
                 Out::Unit
             }
-            Op::Q(n) => Out::Val(call_node(&self.db, *n)),
-            Op::Q2(n, s) => {
-                let mut be = SB { db: &self.db, in_query: false };
-                Out::Val(be.call2(*n, *s))
+            Op::Q(_) | Op::Q2(..) | Op::Q0 | Op::Acc(_) | Op::QFld(..) | Op::QOnTs(..) | Op::QInt(..) => {
+                request_raw(&self.db, op)
             }
-            Op::Q0 => {
-                let mut be = SB { db: &self.db, in_query: false };
-                Out::Val(be.call0())
-            }
-            Op::Acc(n) => {
-                let code = t.nodes[*n as usize];
-                let db = &self.db;
-                let vals: Vec<u8> = match t.kinds[*n as usize] {
-                    Kind::Ev => ev::accumulated::<Acc>(db, code).into_iter().map(|a| a.0).collect(),
-                    Kind::NoEq => ev_noeq::accumulated::<Acc>(db, code).into_iter().map(|a| a.0).collect(),
-                    Kind::Lru => ev_lru::accumulated::<Acc>(db, code).into_iter().map(|a| a.0).collect(),
-                    Kind::Ev0 => ev0::accumulated::<Acc>(db).into_iter().map(|a| a.0).collect(),
-                    Kind::Fx => fx::accumulated::<Acc>(db, code).into_iter().map(|a| a.0).collect(),
-                    Kind::Fxj => fxj::accumulated::<Acc>(db, code).into_iter().map(|a| a.0).collect(),
-                    Kind::Fb => fb::accumulated::<Acc>(db, code).into_iter().map(|a| a.0).collect(),
-                    Kind::Mk => mk::accumulated::<Acc>(db, code).into_iter().map(|a| a.0).collect(),
-                };
-                Out::Vals(vals)
-            }
-            Op::QFld(n, i, w) => {
-                let mut be = SB { db: &self.db, in_query: false };
-                Out::Val(be.fld(*n, *i, *w))
-            }
-            Op::QOnTs(n, i, w) => {
-                let mut be = SB { db: &self.db, in_query: false };
-                Out::Val(be.on_ts(*n, *i, *w))
-            }
-            Op::QInt(ty, d) => Out::Val(intern(&self.db, *ty, *d, false).0),
             Op::Swap(n) => {
                 let i = *n as usize;
                 let new = if self.swapped[i] {
